@@ -118,7 +118,14 @@ def run_py(case):
                 ok = True
                 for raw, x in xs:
                     try:
-                        y = x.resize(tl, tr, getattr(RS, rs), getattr(OS, os_))
+                        # the three documented spellings of the same operation
+                        form = (tl + tr + raw) % 3
+                        if form == 0:
+                            y = x.resize(tl, tr, getattr(RS, rs), getattr(OS, os_))
+                        elif form == 1:
+                            y = x.resize[tl:tr](getattr(RS, rs), getattr(OS, os_))
+                        else:
+                            y = x.resize[tl:tr](round_style=getattr(RS, rs), overflow_style=getattr(OS, os_))
                     except (KeyboardInterrupt, SystemExit):
                         raise
                     except BaseException as e:      # noqa
